@@ -12,6 +12,7 @@ import (
 	"fmt"
 	"sort"
 	"strings"
+	"time"
 
 	"verif/vs/drv"
 )
@@ -37,6 +38,13 @@ func verifC08CLI(c *drv.Ctx) {
 		{"plain subnet, one worker", []string{"-p", "5", "-w", "1", "10.0.1.0/30"}, nil, "", map[string]int{"10.0.1.0:5": 1, "10.0.1.1:5": 1, "10.0.1.2:5": 1, "10.0.1.3:5": 1}},
 		{"plain subnet, 1000 workers", []string{"-p", "5-6", "-w", "1000", "10.0.1.0/31"}, nil, "", map[string]int{"10.0.1.0:5": 1, "10.0.1.1:5": 1, "10.0.1.0:6": 1, "10.0.1.1:6": 1}},
 	}
+	// 512 targets, 100 workers, the first probe answered only after a second, the others after a
+	// millisecond: hundreds of requests are generated and finished while one is still in flight
+	many := map[string]int{}
+	for i := 0; i < 512; i++ {
+		many[fmt.Sprintf("10.0.%d.%d:5", 2+i/256, i%256)] = 1
+	}
+	cases = append(cases, tc{"512 targets, 100 workers, one slow service", []string{"-p", "5", "-w", "100", "10.0.2.0/23"}, nil, "", many})
 	c.R.Rule = "the three application-scan commands (socks, docker, elastic) end to end with every probe positive, for target specifications that denote a target more than once (pairs file with repeats, overlapping port ranges, address files with repeats, stdin) and for 1 and 1000 workers: " +
 		"the probes seen by the recording scanner = the specification with multiplicity, and stdout = exactly one JSON record per probe. non-trivial = case"
 	idx := 0
@@ -47,6 +55,15 @@ func verifC08CLI(c *drv.Ctx) {
 				continue
 			}
 			sc := &vE2ESpec{Args: append(append([]string{cmd, "--json"}, k.args...)), Files: k.files, Stdin: k.stdin, NumCPU: 2, Positive: func(string, uint16) bool { return true }}
+			if len(k.want) > 100 {
+				sc.Horizon = 20000000
+				sc.ProbeDelay = func(_ string, _ uint16, nth int) time.Duration {
+					if nth == 0 {
+						return time.Second
+					}
+					return time.Millisecond
+				}
+			}
 			run, x := vE2EOnce(sc)
 			c.Eval(1)
 			c.Nontrivial(1)
